@@ -270,7 +270,47 @@ def run(chk, repo, tier):
     p1_p2(chk, repo, tier)
     p4(chk, repo, tier)
     p3(chk, repo, tier)
+    p6(chk, repo, tier)
     p7(chk, repo, tier)
+
+
+# --------------------------------------------------------------------------- P6
+def p6(chk, repo, tier):
+    """Sibling arms that build Jacobian index arrays apply the same reversals."""
+    chk.rule("P6", "sibling agreement of the sparsity-pattern construction: within one setup(), every arm guarded by the same orientation / option test that re-indexes the index arrays of a Jacobian (X = X[..., ::-1, ...]) reverses the same set of arrays as its sibling arms (row and column index arrays are flipped together, in every branch that builds a pattern)", min_decided=1)
+    for c in repo.components():
+        if c.name in POSTPROCESSING or c.name in NEVER_INSTANTIATED:
+            continue
+        f = c.methods.get("setup")
+        if f is None:
+            continue
+        groups = {}
+        for n in _ast.walk(f.node):
+            if not isinstance(n, _ast.If):
+                continue
+            rev = set()
+            for st in n.body:
+                if isinstance(st, _ast.Assign) and len(st.targets) == 1 and isinstance(st.targets[0], _ast.Name) and isinstance(st.value, _ast.Subscript) and isinstance(st.value.value, _ast.Name) and st.value.value.id == st.targets[0].id:
+                    sl = st.value.slice
+                    elts = sl.elts if isinstance(sl, _ast.Tuple) else [sl]
+                    if any(isinstance(e, _ast.Slice) and e.lower is None and e.upper is None and isinstance(e.step, _ast.UnaryOp) and isinstance(e.step.op, _ast.USub) and isinstance(e.step.operand, _ast.Constant) and e.step.operand.value == 1 for e in elts):
+                        rev.add(st.targets[0].id)
+            if rev:
+                groups.setdefault(" ".join(_ast.unparse(n.test).split()), []).append((n, frozenset(rev)))
+        for test, arms in groups.items():
+            if len(arms) < 2:
+                continue
+            sets = {}
+            for n, rv in arms:
+                sets.setdefault(rv, []).append(n)
+            major = max(sets.items(), key=lambda kv: (len(kv[1]), len(kv[0])))
+            for rv, nodes in sets.items():
+                for n in nodes:
+                    key = "%s.setup: if %s (arm %d of %d)" % (c.name, test, arms.index((n, rv)) + 1, len(arms))
+                    if rv == major[0]:
+                        chk.ok("P6", key, where(c, n.lineno), "reverses %s" % sorted(rv))
+                    else:
+                        chk.violation("P6", key, where(c, n.lineno), "this arm reverses %s but its sibling arm(s) under the same test reverse %s: rows and columns of the declared pattern are not re-indexed together (misplaced non-zeros for the configurations that take this arm)" % (sorted(rv), sorted(major[0])))
 
 
 # --------------------------------------------------------------------------- P3
